@@ -16,6 +16,9 @@ QBody(a) == Pr(Qn("forall", "k", Own("xs"), Bn(">", K, Fld(VarR("@" \o a), "x"))
 QDom(a) == Pr(Qn("exists", "k", Fld(VarR("@" \o a), "xs"), Bn(">", K, NumA("0"))))    \* reference in a quantifier domain
 QUnused == Pr(Qn("forall", "k", Own("xs"), Bn(">", Own("x"), NumA("0"))))
 QOwnDom == Pr(Qn("forall", "k", Fld(K, "xs"), Bn(">", K, NumA("0"))))
+QOwnDomRange == Pr(Qn("forall", "k", Rng("[", NumA("0"), K, "]"), Bn(">", Idx(Own("xs"), K), NumA("0"))))     \* own variable inside a literal domain
+QOwnDomSet == Pr(Qn("exists", "k", SetOf(<<NumA("1"), K>>), Bn(">", K, Own("x"))))
+QOwnDomDeep == Pr(Qn("forall", "k", Rng("[", NumA("0"), Call("len", Fld(K, "xs")), "]"), Bn(">", K, Own("x"))))
 QNested == Pr(Qn("forall", "k", Own("xs"), Qn("exists", "k", Own("ys"), Bn(">", K, NumA("0")))))
 QNestedAfterUse == Pr(Qn("forall", "k", Own("xs"), Bn("and", Bn(">", K, NumA("0")), Qn("exists", "k", Own("ys"), Bn("<", K, NumA("1"))))))
 QNestedDeep == Pr(Qn("forall", "k", Own("xs"), Bn("implies", Bn(">", K, NumA("0")), Un("not", Qn("exists", "j", Own("ys"), Qn("forall", "k", Own("zs"), Bn("<", K, J)))))))
@@ -36,7 +39,7 @@ OptsQ == {<<"", RefIdx("A")>>, <<"", RefIdx("B")>>, <<"B", RefIdx("A")>>,
           <<"", Pr(Bn(">", Fld(Idx(Idx(Own("ys"), NumA("0")), Fld(VarR("@A"), "i")), "z"), NumA("0")))>>,
           <<"", Pr(Bn("in", Own("x"), Rng("[", NumA("0"), Idx(Own("xs"), Fld(VarR("@A"), "i")), "]")))>>,
           <<"", Pr(Qn("forall", "k", Own("xs"), Bn(">", Idx(Own("ys"), Fld(VarR("@A"), "i")), K)))>>,
-          <<"", QBody("A")>>, <<"", QDom("A")>>, <<"B", QBody("A")>>, <<"", QUnused>>, <<"", QOwnDom>>, <<"", QNested>>, <<"", QNestedAfterUse>>, <<"", QNestedDeep>>, <<"", QUnusedAfter>>,
+          <<"", QBody("A")>>, <<"", QDom("A")>>, <<"B", QBody("A")>>, <<"", QUnused>>, <<"", QOwnDom>>, <<"", QOwnDomRange>>, <<"", QOwnDomSet>>, <<"", QOwnDomDeep>>, <<"", QNested>>, <<"", QNestedAfterUse>>, <<"", QNestedDeep>>, <<"", QUnusedAfter>>,
           <<"", QNestedOK>>, <<"A", RefP("A")>>, <<"A", QBody("A")>>}
 
 Scope(t, p, q) == IF t = "globally" THEN [k |-> "scope", t |-> t]
@@ -284,7 +287,13 @@ WShadow ==
              Bn("and", Qn("forall", "j", Own("ms"), Bn(">", Fld(VarR("@j"), "n"), NumA("0"))),
                        Qn("exists", "j", Own("os"), Bn("=", Fld(VarR("@j"), "n"), StrA("$s")))),
              Bn("or", Qn("exists", "i", Own("os"), Bn("=", Fld(VarR("@i"), "n"), StrA("$s"))),
-                      Qn("forall", "i", Own("mf"), Bn("<", Fld(VarR("@i"), "n"), Own("k"))))}}
+                      Qn("forall", "i", Own("mf"), Bn("<", Fld(VarR("@i"), "n"), Own("k")))),
+             \* sibling quantifiers re-binding the OUTER name over different row types (ra: {items: Inner[]}[], rb: {items: Other[]}[]),
+             \* each with a nested quantifier over the same-looking domain @i.items and the same inner name
+             Bn("and", Qn("forall", "i", Own("ra"), Qn("exists", "j", Fld(VarR("@i"), "items"), Bn(">", Fld(VarR("@j"), "n"), NumA("0")))),
+                       Qn("forall", "i", Own("rb"), Qn("exists", "j", Fld(VarR("@i"), "items"), Bn("=", Fld(VarR("@j"), "n"), StrA("$s"))))),
+             Bn("or", Qn("exists", "i", Own("rb"), Qn("forall", "j", Fld(VarR("@i"), "items"), Bn("=", Fld(VarR("@j"), "n"), Own("s")))),
+                      Qn("exists", "i", Own("ra"), Qn("forall", "j", Fld(VarR("@i"), "items"), Bn("<", Fld(VarR("@j"), "n"), Own("k")))))}}
 WAllPatterns ==
   {Prop(Scope("after", Ev("t", "A", NoPred), NoPred), Pat2(t, Ev("u", "B", Pr(c1)), Ev("u", "", Pr(c2)))) :
       t \in {"causes", "forbids", "requires"},
